@@ -22,7 +22,9 @@ PROP = {
     "design_ref": "DESIGN.md §3 C17",
     "rule": ("case = E1 schedule in which every HTLC is eventually resolved, then 6 PRNG trials (fee, script pair, payer) on "
              "reloaded copies; non-trivial = completed closes; distinct = (channel type, opener, payer option, number of outputs, "
-             "which side is below dust, zero fee, script lengths)"),
+             "which side is below dust, zero fee, script lengths); unit rbf: case = E1 schedule then one RBF-coop close dialogue "
+             "of the two state machines, non-trivial = dialogues yielding at least one transaction, distinct = (channel type, "
+             "closer is opener, offer number of that closer, closer/closee output below dust, early offer seen, link mode)"),
     "assumptions": ["MockSigner; musig2 nonces generated as peer.MusigChanCloser does"],
     "units": [{
         "name": "closetx", "pkg": "lnwallet", "test": "TestVerifC17",
